@@ -33,14 +33,14 @@ type polSpec struct {
 
 func c10Policies(c *Ctx, r *Report) {
 	r.rule("C10.R1", "only available upstreams are returned; no method call on a nil slot (per policy, pools of 0..3, all availability/count vectors and random draws)", 6)
-	r.rule("C10.R2", "an upstream is returned whenever one is available (first, random, random_choose, least_conn, round_robin over every starting counter value); nil is returned when none is (all policies)", 6)
+	r.rule("C10.R2", "an upstream is returned whenever one is available (first, random, random_choose, least_conn, ip_hash for every ordering of the hashes incl. zero, round_robin over every starting counter value); nil is returned when none is (all policies)", 6)
 	r.rule("C10.R3", "first returns the earliest available upstream; least_conn returns one with the fewest connections among the available", 2)
 	specs := []polSpec{
 		{typ: "FirstSelection", iff: true, first: true, maxN: 3},
 		{typ: "RandomSelection", iff: true, maxN: 3},
 		{typ: "LeastConnSelection", iff: true, least: true, maxN: 3},
 		{typ: "RoundRobinSelection", iff: true, maxN: 3},
-		{typ: "IPHashSelection", maxN: 3},
+		{typ: "IPHashSelection", iff: true, maxN: 3},
 		{typ: "RandomChoiceSelection", iff: true, maxN: 3, choose: 2},
 		{typ: "RandomChoiceSelection", iff: true, maxN: 3, choose: 1},
 	}
